@@ -7,6 +7,7 @@ import (
 	"fmt"
 	"io"
 	"io/ioutil"
+	"math"
 	"net/http"
 	"path"
 	"strconv"
@@ -593,6 +594,10 @@ func contextFromHeaders(parent context.Context, h http.Header) (context.Context,
 				unit = time.Nanosecond
 			}
 			if unit != 0 {
+				if timeoutVal > int64(math.MaxInt64/unit) {
+					// saturate instead of overflowing time.Duration
+					timeoutVal, unit = math.MaxInt64, time.Nanosecond
+				}
 				ctx, cancel = context.WithTimeout(ctx, time.Duration(timeoutVal)*unit)
 			}
 		}
